@@ -14,6 +14,10 @@ type rcur struct {
 	base  Lin
 	at    Lin
 	avail *Lin // absolute end of the region proven to exist; nil = nothing proven
+	// countChecked: a check at this cursor position bounded the u32 count found here
+	countChecked bool
+	// checkedVars: count variables bounded against the remaining input
+	checkedVars map[string]bool
 	// perIter is set inside a loop covered by a bulk check: bytes proven per iteration
 }
 
@@ -147,9 +151,32 @@ func (l *Lifter) brBlock(stmts []ast.Stmt, cur *rcur, counts map[string]*countVa
 			if cur.avail == nil || end.Sub(*cur.avail).NonNeg() {
 				cur.avail = &end
 			}
+			if rel == "at" {
+				for t, k := range e.T {
+					if k > 0 && t == "wirelen(at)" {
+						cur.countChecked = true
+					}
+					if k > 0 && strings.HasPrefix(t, "val(") {
+						if cur.checkedVars == nil {
+							cur.checkedVars = map[string]bool{}
+						}
+						cur.checkedVars[strings.TrimSuffix(strings.TrimPrefix(t, "val("), ")")] = true
+					}
+				}
+			}
 			continue
 		}
 		if d, ok := l.accStmt(s, "at"); ok {
+			cur.countChecked = false
+			if cur.avail != nil && cur.avail.T["wirelen(at)"] != 0 && d.T["wirelen(at)"] == 0 {
+				// the bound was phrased in terms of the count at the old cursor
+				// position: keep only its constant part
+				e := cur.pos().Add(Const(0))
+				if c := cur.avail.Sub(cur.pos()); c.C > 0 {
+					e = cur.pos().Add(Const(min(c.C, 4)))
+				}
+				cur.avail = &e
+			}
 			if d.T["wirelen(at)"] != 0 {
 				// skipping a nested record by the length it declares on the wire;
 				// the callee that just succeeded proved those bytes exist
@@ -207,7 +234,7 @@ func (l *Lifter) brBlock(stmts []ast.Stmt, cur *rcur, counts map[string]*countVa
 				raw := CanonOperand(x.X)
 				over := l.op(x.X)
 				l.pushRename(raw+"["+id.Name+"]", fmt.Sprintf("$v%d", d))
-				inner := &rcur{base: cur.base, at: cur.at}
+				inner := &rcur{base: cur.base, at: cur.at, checkedVars: cur.checkedVars}
 				// bulk check: len(over)*w bytes proven before the loop
 				per := 0
 				if cur.avail != nil {
@@ -284,7 +311,7 @@ func (l *Lifter) brBlock(stmts []ast.Stmt, cur *rcur, counts map[string]*countVa
 							it := Item{Kind: KSwitch, Pos: s.Pos()}
 							for _, cc := range sw.Body.List {
 								cl := cc.(*ast.CaseClause)
-								inner := &rcur{base: cur.base, at: cur.at, avail: cur.avail}
+								inner := &rcur{base: cur.base, at: cur.at, avail: cur.avail, checkedVars: cur.checkedVars}
 								body := l.brBlock(cl.Body, inner, counts, false)
 								c := Case{Default: cl.List == nil}
 								if !c.Default {
@@ -348,7 +375,7 @@ func (l *Lifter) brMapLoop(x *ast.ForStmt, cv *countVar, cur *rcur, counts map[s
 		l.pushRename(cv.rawDst+"["+key+"]", fmt.Sprintf("$v%d", d))
 		n = 2
 	}
-	inner := &rcur{base: cur.base, at: cur.at.Add(Term("iter", 1))}
+	inner := &rcur{base: cur.base, at: cur.at.Add(Term("iter", 1)), checkedVars: cur.checkedVars}
 	body := l.brBlock(x.Body.List, inner, counts, false)
 	l.popRenames(n)
 	l.depth--
@@ -449,6 +476,7 @@ func (l *Lifter) brAssign(x *ast.AssignStmt, rest []ast.Stmt, cur *rcur, counts 
 							counts[cid.Name].rawDst = CanonOperand(x.Lhs[0])
 							counts[cid.Name].opDst = dst
 							a.Hint = true
+							a.Bounded = cur.checkedVars[cid.Name]
 							l.Allocs = append(l.Allocs, a)
 							return []Item{{Kind: KCount, Operand: dst, Pos: pos}}, 0, true
 						}
@@ -456,7 +484,12 @@ func (l *Lifter) brAssign(x *ast.AssignStmt, rest []ast.Stmt, cur *rcur, counts 
 				} else if len(c.Args) == 2 {
 					if name, off, conv, _, ok := l.readBytesCall(c.Args[1]); ok && name == "ReadUint32Bytes" && conv == "" {
 						l.needRead(cur, off, Const(4), "array count read", "arraycount", pos)
-						a := Alloc{Operand: dst, Kind: "slice", Hint: true, Pos: pos}
+						a := Alloc{Operand: dst, Kind: "slice", Hint: true, Pos: pos, Bounded: cur.countChecked}
+						if sl, ok := t.Underlying().(*types.Slice); ok {
+							if st, ok := sl.Elem().Underlying().(*types.Struct); ok && st.NumFields() == 0 {
+								a.ZeroSize = true
+							}
+						}
 						// bounded iff a later-needed bulk check already ran: never, when make comes first
 						l.Allocs = append(l.Allocs, a)
 						return []Item{{Kind: KCount, Operand: dst, Pos: pos}}, 0, true
